@@ -240,6 +240,22 @@ PROPS["C09"] = dict(
     design_ref="DESIGN.md section 4, C09",
 )
 
+PROPS["C11"] = dict(
+    level="proof",
+    verus=["c11_lists"],
+    labels=["C11."],
+    kani=[],
+    trusted=["NetworkFilter::parse / parse_hosts_style / CosmeticFilter::parse bodies (Lazy<Regex>, closures, macro_rules!): uninterpreted results - their own slicing is NOT under contract",
+             "str::trim, split_whitespace, lines (R5/R6 shims)", "memchr / memrchr (shims)", "UTF-8 facts: an ASCII byte has a character boundary on both sides; both ends of a string are boundaries; ASCII text is encoded byte for character",
+             "per-line error isolation in parse_filters_with_metadata (map/filter_map closure pipeline) is not under contract"],
+    assumptions=[],
+    level_text="Verus proves for ALL UTF-8 strings that AbstractNetworkFilter::parse (offset arithmetic around '@@', '$', '|', '||') and the metadata cut-off loop never slice out of bounds or off a character boundary and terminate; "
+               "that parse_filter routes each line to the parser its detected kind and the format name, returns exactly that parser's rule, never yields a rule of the excluded kind, and that hosts lines only yield parse_hosts_style rules; "
+               "the unreachable!() arm of the hosts branch is proved unreachable",
+    level_note="the big per-kind parsers are uninterpreted; line independence of the list-level pipeline is not decided",
+    design_ref="DESIGN.md section 4, C11",
+)
+
 for _p in PROPS.values():
     _p.setdefault("technique", TECH)
     _p.setdefault("explanation", "")
